@@ -83,6 +83,20 @@ def run(chk):
             bad.append((t, w, a))
         elif a != b:
             tdis.append((t, w, a, b))
+    # ---- printing into sinks that misbehave as real sinks do (only the real code): a sink of fixed capacity answers Ok(0)
+    # once it is full, another answers an error, a third takes one byte per call; for EVERY capacity the printers must end -
+    # with an error while something is still unwritten - and a short writer must not change the output (round-6 seed C03-H:
+    # an indentation loop that re-offers its spaces to a full sink for ever)
+    sdocs = [t for t, w in cases if w in ("valid", "interaction") and len(t) < 400][:60 if thorough else 25]
+    sdocs += ["<!DOCTYPE a [<!ENTITY e 'v'><?p q?><!NOTATION n PUBLIC 'p'><!ELEMENT a (b|c)*><!ATTLIST a x CDATA 'd'>]><a><b><c x='1'/><!--k--><?p q?></b>t&e;<![CDATA[z]]></a><!--t-->"]
+    souts = lib.run_lines(h, [lib.req("sinks", t) for t in sdocs], timeout=per_line * 30, per_line_resume=True)
+    sink_ok = 0
+    for t, o in zip(sdocs, souts):
+        chk.count(["sinks", t], nontrivial=o.startswith("ok "))
+        sink_ok += o.startswith("ok ")
+        if not (o.startswith("ok ") or o.startswith("err:")):
+            bad.append((t, "sinks", "printing into a limited sink: " + o))
+    chk.cov["limited_sinks"] = "%d documents printed into full / failing / one-byte sinks at every capacity; %d printable" % (len(sdocs), sink_ok)
     # ---- hostile sizes: only the real code (the model driver's own recursion is not the subject)
     deep = []
     for name, n in [("nest", 5000), ("nest", 50000 if thorough else 20000), ("cm-seq", 20000), ("cm-choice", 50000 if thorough else 20000),
@@ -130,8 +144,8 @@ def run(chk):
     for t, w, a in unexplained[:3]:
         chk.violation("total_%s" % lib.enc(w)[:40],
                       "property C03: %s on input kind %s\ninput (percent-encoded, first 2000): %s\n"
-                      "replay: printf 'pipeline\\t<that input percent-encoded>\\n' | harness/target/debug/xmlrs-driver\n"
-                      % (a, w, lib.enc(t)[:2000]))
+                      "replay: printf '%s\\t<that input percent-encoded>\\n' | harness/target/debug/xmlrs-driver\n"
+                      % (a, w, lib.enc(t)[:2000], "sinks" if w == "sinks" else "pipeline"))
     if not unexplained:
         if tdis:
             t, w, a, b = tdis[0]
